@@ -71,12 +71,103 @@ type egroup struct {
 	pred string
 	neg  bool
 	pat  string
+	expr *bexpr // pred "bool": a boolean combination of Text.Matches atoms over $x and $y
+}
+
+// bexpr: a Where() expression built from Text.Matches atoms; every atom means regexp.MatchString of ITS OWN pattern on the
+// text of ITS variable, whatever stands next to it
+type bexpr struct {
+	op   string // atom not and or
+	v    string // atom: "x" | "y"
+	pat  string
+	a, b *bexpr
+}
+
+func (e *bexpr) dsl() string {
+	switch e.op {
+	case "atom":
+		q := strconv.Quote(e.pat)
+		if !strings.Contains(e.pat, "`") && len(e.pat)%2 == 0 {
+			q = "`" + e.pat + "`"
+		}
+		return fmt.Sprintf("m[%q].Text.Matches(%s)", e.v, q)
+	case "not":
+		return "!" + e.a.dsl()
+	case "and":
+		return "(" + e.a.dsl() + " && " + e.b.dsl() + ")"
+	}
+	return "(" + e.a.dsl() + " || " + e.b.dsl() + ")"
+}
+
+func (e *bexpr) eval(x, y string) bool {
+	switch e.op {
+	case "atom":
+		in := x
+		if e.v == "y" {
+			in = y
+		}
+		return regexp.MustCompile(e.pat).MatchString(in)
+	case "not":
+		return !e.a.eval(x, y)
+	case "and":
+		return e.a.eval(x, y) && e.b.eval(x, y)
+	}
+	return e.a.eval(x, y) || e.b.eval(x, y)
+}
+
+func atom(v, pat string) *bexpr { return &bexpr{op: "atom", v: v, pat: pat} }
+func bnot(a *bexpr) *bexpr      { return &bexpr{op: "not", a: a} }
+func band(a, b *bexpr) *bexpr   { return &bexpr{op: "and", a: a, b: b} }
+func bor(a, b *bexpr) *bexpr    { return &bexpr{op: "or", a: a, b: b} }
+
+// patterns whose meaning would change if they were pasted next to another pattern: top-level flag groups, an unterminated
+// \Q, alternations, anchors -- and plain ones
+var boolPats = []string{"(?i)^\"foo", "^\"Bar", "(?s)a.b", "x.y", "(?m)^bar\"$", "^foo$", "\\Qa.b", "xyz", "(?i)FOO", "bar\"$", "a|b", "^\"", "(?U)fo+", "fo+x", "(?i:q)", "^\"[A-Z]"}
+
+// boolExprs: disjunctions / conjunctions / negations of Text.Matches atoms on the same and on different variables
+func boolExprs(rng *rand.Rand, n int) []*bexpr {
+	out := []*bexpr{
+		bor(atom("x", "(?i)^\"foo"), atom("x", "^\"Bar")),
+		bor(atom("x", "(?s)a.b"), atom("x", "x.y")),
+		bor(atom("x", "(?m)^bar\"$"), atom("x", "^foo$")),
+		bor(atom("x", "\\Qa.b"), atom("x", "xyz")),
+		bor(atom("x", "^\"Bar"), atom("x", "(?i)^\"foo")),
+		bor(atom("x", "(?i)^\"foo"), atom("y", "^\"Bar")),
+		band(atom("x", "(?i)^\"foo"), atom("x", "o\"$")),
+		bor(bnot(atom("x", "(?i)^\"foo")), atom("x", "^\"Bar")),
+		bor(bor(atom("x", "(?i)q"), atom("x", "^\"Bar")), atom("x", "xyz")),
+		band(bor(atom("x", "(?s)a.b"), atom("x", "x.y")), atom("y", "^\"[a-z]")),
+		bor(atom("x", "(?i)^\"foo"), bnot(atom("x", "^\"Bar"))),
+		bor(atom("x", "(?U)fo+"), atom("x", "fo+x")),
+	}
+	for len(out) < n {
+		var gen func(d int) *bexpr
+		gen = func(d int) *bexpr {
+			if d == 0 || rng.Intn(3) == 0 {
+				return atom([]string{"x", "x", "y"}[rng.Intn(3)], boolPats[rng.Intn(len(boolPats))])
+			}
+			switch rng.Intn(4) {
+			case 0:
+				return bnot(gen(d - 1))
+			case 1:
+				return band(gen(d-1), gen(d-1))
+			}
+			return bor(gen(d-1), gen(d-1))
+		}
+		e := gen(2)
+		if e.op == "atom" {
+			continue
+		}
+		out = append(out, e)
+	}
+	return out
 }
 
 type esite struct {
 	group int
 	pos   int
 	arg   string // the text the predicate must see (node-text predicates)
+	arg2  string // pred "bool": the text of $y
 }
 
 var cgroupRe = regexp.MustCompile(`cg\d+:(\w*)(-opt)?`)
@@ -106,7 +197,8 @@ func engineRules(rng *rand.Rand, npat int) (rules string, groups []egroup, pats 
 		// the pattern argument in every spelling a rules file may use: interpreted literal, raw literal, a named constant,
 		// a constant expression -- the predicate must be compiled from the STRING VALUE
 		q := strconv.Quote(pat)
-		switch gi % 4 {
+		local := "" // declarations at the top of the group function
+		switch gi % 6 {
 		case 1:
 			if !strings.Contains(pat, "`") && !strings.Contains(pat, "\r") {
 				q = "`" + pat + "`"
@@ -119,6 +211,16 @@ func engineRules(rng *rand.Rand, npat int) (rules string, groups []egroup, pats 
 			if len(rs) >= 2 {
 				q = strconv.Quote(string(rs[:len(rs)/2])) + " + " + strconv.Quote(string(rs[len(rs)/2:]))
 			}
+		case 4:
+			// a constant local to the group function: the SAME name in every such group, another value in each
+			local = "\tconst pat = " + q + "\n"
+			q = "pat"
+		case 5:
+			// a group-local constant that shadows a package-level one inside a constant expression: the same expression
+			// text in every such group
+			rs := []rune(pat)
+			local = "\tconst pfx = " + strconv.Quote(string(rs[:len(rs)/2])) + "\n\tconst sfx = " + strconv.Quote(string(rs[len(rs)/2:])) + "\n"
+			q = "pfx + sfx"
 		}
 		var cond string
 		switch pred {
@@ -141,20 +243,28 @@ func engineRules(rng *rand.Rand, npat int) (rules string, groups []egroup, pats 
 		case "cany":
 			cond = fmt.Sprintf("%sm[\"g\"].Text.Matches(%s)", bang, q)
 		}
+		var fn string
 		switch pred {
 		case "list":
 			// the text of a $*xs capture: the source from the first to the last argument, empty when it matched nothing
-			fmt.Fprintf(&rb, "func g%d(m dsl.Matcher) {\n\tm.Match(`p%d($*xs)`).Where(%s).Report(`hit`)\n}\n", gi, gi, cond)
+			fn = fmt.Sprintf("func g%d(m dsl.Matcher) {\n\tm.Match(`p%d($*xs)`).Where(%s).Report(`hit`)\n}\n", gi, gi, cond)
 		case "cgroup-g", "cgroup-opt":
 			// a comment group that captured the empty string (g) or did not participate at all (opt) has the empty text
-			fmt.Fprintf(&rb, "func g%d(m dsl.Matcher) {\n\tm.MatchComment(`cg%d:(?P<g>\\w*)(?P<opt>-opt)?`).Where(%s).Report(`hit`)\n}\n", gi, gi, cond)
+			fn = fmt.Sprintf("func g%d(m dsl.Matcher) {\n\tm.MatchComment(`cg%d:(?P<g>\\w*)(?P<opt>-opt)?`).Where(%s).Report(`hit`)\n}\n", gi, gi, cond)
 		case "cany":
 			// a comment group that captures the rest of the line: a text that may begin with any rune (spaces, digits of any script)
-			fmt.Fprintf(&rb, "func g%d(m dsl.Matcher) {\n\tm.MatchComment(`ca%d:(?P<g>.*)`).Where(%s).Report(`hit`)\n}\n", gi, gi, cond)
+			fn = fmt.Sprintf("func g%d(m dsl.Matcher) {\n\tm.MatchComment(`ca%d:(?P<g>.*)`).Where(%s).Report(`hit`)\n}\n", gi, gi, cond)
 		default:
-			fmt.Fprintf(&rb, "func g%d(m dsl.Matcher) {\n\tm.Match(`p%d($x)`).Where(%s).Report(`hit`)\n}\n", gi, gi, cond)
+			fn = fmt.Sprintf("func g%d(m dsl.Matcher) {\n\tm.Match(`p%d($x)`).Where(%s).Report(`hit`)\n}\n", gi, gi, cond)
 		}
-		groups = append(groups, egroup{pred, neg, pat})
+		rb.WriteString(strings.Replace(fn, "{\n", "{\n"+local, 1))
+		groups = append(groups, egroup{pred: pred, neg: neg, pat: pat})
+	}
+	// boolean combinations of several Text.Matches predicates, on the same and on different variables
+	for _, e := range boolExprs(rng, 30) {
+		gi := len(groups)
+		fmt.Fprintf(&rb, "func g%d(m dsl.Matcher) {\n\tm.Match(`p%d($x, $y)`).Where(%s).Report(`hit`)\n}\n", gi, gi, e.dsl())
+		groups = append(groups, egroup{pred: "bool", pat: e.dsl(), expr: e})
 	}
 	// patterns that tell a base name from a path, an anchored from a floating match, and a package path from a name
 	filePats := []string{`^foo`, `^foo\.go$`, `^[^/]*$`, `/`, `_test\.go$`, `^Upper`, `^\p{Lu}`, `^lower_`, `^x/`, `^example\.com/foo$`, `^foo$`,
@@ -207,6 +317,8 @@ func engineRules(rng *rand.Rand, npat int) (rules string, groups []egroup, pats 
 			addGroup("whole", neg, p)
 		}
 	}
+	// package-level constants that the group-local ones of the same name shadow
+	consts.WriteString("const pfx = \"^never-\"\nconst sfx = \"-this$\"\nconst pat = \"^nor-that$\"\n")
 	return rb.String() + "\n" + consts.String(), groups, pats
 }
 
@@ -229,11 +341,15 @@ func engineTarget(groups []egroup, variant int) (string, []esite) {
 		case "list":
 			fmt.Fprintf(&tb, "func p%d(args ...interface{}) {}\n", gi)
 		case "cgroup-g", "cgroup-opt", "cany":
+		case "bool":
+			fmt.Fprintf(&tb, "func p%d(string, string) {}\n", gi)
 		default:
 			fmt.Fprintf(&tb, "func p%d(string) {}\n", gi)
 		}
 	}
 	tb.WriteString("\nfunc f() {\n")
+	boolX := []string{`"bar"`, `"Bar"`, `"foo"`, `"FOO"`, "`x\ny`", "`a\nb`", `"xyz"`, `"a.b"`, `"a.b|xyz"`, "`foo\nbar`", `"fooox"`, `"q"`, `"Q"`, `"b"`, `""`, "`a\nfoo`"}
+	boolY := []string{`"Bar"`, `"bar"`, `"Foo"`, `"x"`, `"xyz"`, `"a"`, `"B"`, `""`}
 	var sites []esite
 	for gi, g := range groups {
 		switch g.pred {
@@ -275,6 +391,14 @@ func engineTarget(groups []egroup, variant int) (string, []esite) {
 				sites = append(sites, esite{group: gi, pos: tb.Len(), arg: fmt.Sprintf("p%d(%s)", gi, a)})
 				fmt.Fprintf(&tb, "p%d(%s)\n", gi, a)
 			}
+		case "bool":
+			xs, ys := rotSameLen(boolX, variant), rotSameLen(boolY, variant)
+			for i, a := range xs {
+				b := ys[(i+gi)%len(ys)]
+				tb.WriteString("\t")
+				sites = append(sites, esite{group: gi, pos: tb.Len(), arg: a, arg2: b})
+				fmt.Fprintf(&tb, "p%d(%s, %s)\n", gi, a, b)
+			}
 		case "text":
 			for _, a := range rotSameLen(textArgs, variant) {
 				tb.WriteString("\t")
@@ -309,7 +433,7 @@ func engineLevel(enc *json.Encoder, tmp string, rng *rand.Rand, npat int) {
 	// which matcher Text.Matches gets for each pattern (the File() predicates are compiled by regexp directly)
 	kinds := map[string]int{}
 	for _, g := range groups {
-		if g.pred == "name" || g.pred == "pkgpath" {
+		if g.pred == "name" || g.pred == "pkgpath" || g.pred == "bool" {
 			continue
 		}
 		if tm, err := textmatch.Compile(g.pat); err == nil {
@@ -404,7 +528,13 @@ func engineLevel(enc *json.Encoder, tmp string, rng *rand.Rand, npat int) {
 				case "pkgpath":
 					in = v.pkgPath
 				}
-				want := res[g.pat].MatchString(in) != g.neg
+				var want bool
+				if g.pred == "bool" {
+					want = g.expr.eval(s.arg, s.arg2)
+					in = "x = " + s.arg + ", y = " + s.arg2
+				} else {
+					want = res[g.pat].MatchString(in) != g.neg
+				}
 				have := got[[2]int{s.group, s.pos}]
 				sum.Sites++
 				if want {
